@@ -17,7 +17,7 @@ RULE = ('specifications with 1-4 named assertions / sub-specifications (all deco
         'form); for every name n, get_value(n) after evaluate()/update() must equal what a STAND-ALONE real specification of the inlined formula of n '
         '(same monitor kind, pastified too if the specification was) returns on the same data: whole signal offline (one value per sample in discrete '
         'time, equal as a function in dense time), current value online; get_value(var) must be the supplied data. Online kinds are explored by BFS '
-        '(discrete: product BFS over sample vectors; dense: all schedules) with the stand-alone monitors stepped in lock-step; one obligation = one (state or data set, name) comparison; '
+        '(discrete: product BFS over sample vectors; dense: all schedules) with the stand-alone monitors stepped in lock-step; in every second discrete online search reset() of the modular monitor is an event (at most twice per history) after which the oracle is a set of fresh stand-alone monitors; one obligation = one (state or data set, name) comparison; '
         'life layer: discrete offline objects that were used under another default unit / sampling period and then switched (vf/reconf.py), against fresh stand-alone specifications')
 ASSUMPTIONS = ['the stand-alone monitors are the real implementation (their own correctness is C01-C05)',
                'dense results are compared as step functions on the grid of the common domain']
@@ -150,6 +150,7 @@ class GvModel(c02.DtOnlineModel):
             c02.DtOnlineModel.__init__(self, f, (F.V3, F.V2), text=text, pastify=pastify, delay=delay, subspecs=tuple(subs), offline=False)
         self.defs = defs
         self.named = [(n, F.inline(b, dict(defs))) for n, b in defs] + [('out', f)]
+        self.with_reset = False
 
     def fresh(self):
         main = c02.DtOnlineModel.fresh(self)
@@ -158,11 +159,38 @@ class GvModel(c02.DtOnlineModel):
             alone[n] = impl.build('dt_on', 'out = ' + F.pr(g), self.vs, pastify=self.pastify)
         return Bundle(main, alone)
 
+    RESET = ('R',)
+
+    def enabled(self, hist):
+        # reset() of the modular monitor as an event: at most twice per history, never first and never twice in a row.  After it the oracle
+        # is a set of FRESH stand-alone monitors (resetting them too would only compare reset() with itself)
+        ev = list(self.events)
+        if self.with_reset and hist and hist[-1] != self.RESET and hist.count(self.RESET) < 2:
+            ev.append(self.RESET)
+        return ev
+
+    @classmethod
+    def segment(cls, hist):
+        if cls.RESET in hist:
+            k = len(hist) - 1 - hist[::-1].index(cls.RESET)
+            return hist[k + 1:]
+        return hist
+
+    def refkey(self, hist):
+        return (hist.count(self.RESET), bool(hist) and hist[-1] == self.RESET, c02.DtOnlineModel.refkey(self, self.segment(hist)))
+
     def apply(self, b, hist, e):
-        sample = dict(zip(self.vs, e))
-        out = impl.outcome(impl.dt_update, b.main, len(hist), sample)
         b.msg = None
         b.compared = 0
+        if e == self.RESET:
+            out = impl.outcome(b.main.reset)
+            if out[0] != 'ok':
+                b.msg = 'reset() raised %s' % (out[1],)
+            b.alone = {n: impl.build('dt_on', 'out = ' + F.pr(g), self.vs, pastify=self.pastify) for n, g in self.named}
+            return out
+        hist = self.segment(hist)
+        sample = dict(zip(self.vs, e))
+        out = impl.outcome(impl.dt_update, b.main, len(hist), sample)
         if out[0] != 'ok':
             b.msg = 'update() raised %s' % (out[1],)
             return out
@@ -305,9 +333,10 @@ def run_shard(shard, tier, res):
     forms = [('add', future)] + ([('add', True)] if not future and shard['i'] % 2 == 0 else []) + ([('multi', future)] if shard['i'] % 3 == 0 else [])
     for form, pastify in forms:
         m = GvModel(f, defs, subs, text, pastify, form)
+        m.with_reset = shard['i'] % 2 == 1
 
         def on_violation(hist, msg, form=form, pastify=pastify):
-            res.violation(mod, dict(case, kind='dt_on', form=form, pastify=pastify, history=[list(e) for e in hist]), msg)
+            res.violation(mod, dict(case, kind='dt_on', form=form, pastify=pastify, history=[list(e) for e in hist], with_reset=m.with_reset), msg)
             res.outcomes['dt_on'] += 1
         st = explore.bfs(m, p['maxdepth'], p['max_transitions'], p['validate'], on_violation)
         res.states += st.states
@@ -316,6 +345,23 @@ def run_shard(shard, tier, res):
         res.evaluations += st.transitions
         res.nontrivial += m.nontrivial
         res.digest(text, form, pastify, st.states, st.transitions)
+        if m.with_reset:
+            # two resets with updates in between (beyond the depth the capped BFS reaches): every history e1 R e2 e3 R e4 e5 over a reduced alphabet
+            ev = m.events[::2] if len(m.events) > 3 else m.events
+            import itertools as _it
+            for es in _it.product(ev, repeat=5):
+                hist = (es[0], m.RESET, es[1], es[2], m.RESET, es[3], es[4])
+                b = m.fresh()
+                res.traces += 1
+                for i in range(len(hist)):
+                    m.apply(b, hist[:i], hist[i])
+                    res.transitions += 1
+                    if b.msg:
+                        on_violation(hist[:i + 1], b.msg)
+                        break
+                else:
+                    res.flags['double_reset_histories'] += 1
+                    res.nontrivial += 1
     offline_dt(res, mod, case, f, defs, subs, text)
     if c09.DENSE_OK(f) and not F.has_op(f, ('-',)):
         offline_ct(res, mod, case, f, defs, subs, text, tier)
@@ -359,6 +405,7 @@ def replay(case):
     r = R()
     if kind == 'dt_on':
         m = GvModel(f, defs, subs, text, case['pastify'], case['form'])
+        m.with_reset = bool(case.get('with_reset'))
         b = m.fresh()
         hist = tuple(tuple(e) for e in case['history'])
         for i, e in enumerate(hist):
